@@ -106,4 +106,605 @@ theorem isNewMinimum_first {same : δ → δ → Bool} {s : Ktn δ} (hs : Inv s)
   have := hnone j hjm
   simpa [hx] using this
 
+
+/-! ### the gate invariant -/
+
+/-- no stored minimum matches (as a candidate) a minimum stored before it -/
+def MinDistinct (same : δ → δ → Bool) (s : Ktn δ) : Prop :=
+  s.nodes.Pairwise (fun a b => same b.data a.data = false)
+
+/-- no two stored transition states match, in either direction -/
+def TsDistinct (same : δ → δ → Bool) (s : Ktn δ) : Prop :=
+  s.edges.Pairwise (fun a b => same b.data a.data = false ∧ same a.data b.data = false)
+
+structure GateInv (same : δ → δ → Bool) (s : Ktn δ) : Prop where
+  inv : Inv s
+  mins : MinDistinct same s
+  tss : TsDistinct same s
+
+theorem gateInv_empty (same : δ → δ → Bool) : GateInv same (empty : Ktn δ) :=
+  ⟨inv_empty, by simp [MinDistinct, empty], by simp [TsDistinct, empty]⟩
+
+theorem gateInv_reset (same : δ → δ → Bool) (s : Ktn δ) : GateInv same s.reset :=
+  gateInv_empty same
+
+/-- candidate `d` is represented by the stored minimum `i`: that minimum is `d` itself or a
+    point `d` matches -/
+def Rep (same : δ → δ → Bool) (s : Ktn δ) (i : Nat) (d : δ) : Prop :=
+  ∃ x, s.nodeData? i = some x ∧ (x = d ∨ same d x = true)
+
+/-- nothing removed, nothing renumbered: old nodes are a prefix (labels and data identical), the
+    history is a prefix, every connected pair stays connected and its transition state is the old
+    one or one satisfying `T` (instantiated with "was offered in between") -/
+structure Mono (T : δ → Prop) (s s' : Ktn δ) : Prop where
+  nodes : ∃ extra, s'.nodes = s.nodes ++ extra
+  nMin : s.nMin ≤ s'.nMin
+  hist : ∃ extra, s'.pairlist = s.pairlist ++ extra
+  edges : ∀ a b x, s.edgeData? a b = some x → ∃ y, s'.edgeData? a b = some y ∧ (y = x ∨ T y)
+
+theorem Mono.refl (T : δ → Prop) (s : Ktn δ) : Mono T s s :=
+  ⟨⟨[], by simp⟩, Nat.le_refl _, ⟨[], by simp⟩, fun _ _ x h => ⟨x, h, Or.inl rfl⟩⟩
+
+theorem Mono.trans {T : δ → Prop} {s s' s'' : Ktn δ} (h1 : Mono T s s') (h2 : Mono T s' s'') :
+    Mono T s s'' := by
+  obtain ⟨e1, he1⟩ := h1.nodes
+  obtain ⟨e2, he2⟩ := h2.nodes
+  obtain ⟨p1, hp1⟩ := h1.hist
+  obtain ⟨p2, hp2⟩ := h2.hist
+  refine ⟨⟨e1 ++ e2, by rw [he2, he1, List.append_assoc]⟩, Nat.le_trans h1.nMin h2.nMin,
+    ⟨p1 ++ p2, by rw [hp2, hp1, List.append_assoc]⟩, ?_⟩
+  intro a b x hx
+  obtain ⟨y, hy, hyx⟩ := h1.edges a b x hx
+  obtain ⟨z, hz, hzy⟩ := h2.edges a b y hy
+  refine ⟨z, hz, ?_⟩
+  rcases hzy with rfl | hT
+  · exact hyx
+  · exact Or.inr hT
+
+theorem Mono.weaken {T T' : δ → Prop} (hT : ∀ y, T y → T' y) {s s' : Ktn δ} (h : Mono T s s') :
+    Mono T' s s' :=
+  ⟨h.nodes, h.nMin, h.hist, fun a b x hx => by
+    obtain ⟨y, hy, hyx⟩ := h.edges a b x hx
+    exact ⟨y, hy, hyx.imp id (hT y)⟩⟩
+
+theorem nodeData_mono {s s' : Ktn δ} (h : ∃ extra, s'.nodes = s.nodes ++ extra) {a : Nat} {x : δ}
+    (hx : s.nodeData? a = some x) : s'.nodeData? a = some x := by
+  obtain ⟨extra, he⟩ := h
+  simp only [nodeData?, Option.map_eq_some_iff] at hx ⊢
+  obtain ⟨nd, hf, hd⟩ := hx
+  exact ⟨nd, by rw [he, List.find?_append, hf]; rfl, hd⟩
+
+theorem Rep.mono {same : δ → δ → Bool} {s s' : Ktn δ} (h : ∃ extra, s'.nodes = s.nodes ++ extra)
+    {i : Nat} {d : δ} (hr : Rep same s i d) : Rep same s' i d := by
+  obtain ⟨x, hx, hd⟩ := hr
+  exact ⟨x, nodeData_mono h hx, hd⟩
+
+theorem mem_mono {s s' : Ktn δ} (h : ∃ extra, s'.nodes = s.nodes ++ extra) {nd : Node δ}
+    (hm : nd ∈ s.nodes) : nd ∈ s'.nodes := by
+  obtain ⟨extra, he⟩ := h
+  rw [he]; exact List.mem_append_left _ hm
+
+theorem hasEdge_eq_isSome (s : Ktn δ) (a b : Nat) : s.hasEdge a b = (s.edgeData? a b).isSome := by
+  rw [Bool.eq_iff_iff]
+  simp [hasEdge, edgeData?]
+
+theorem edgeData_congr {s s' : Ktn δ} (h : s'.edges = s.edges) (a b : Nat) :
+    s'.edgeData? a b = s.edgeData? a b := by
+  simp [edgeData?, h]
+
+theorem nodeData_congr {s s' : Ktn δ} (h : s'.nodes = s.nodes) (a : Nat) :
+    s'.nodeData? a = s.nodeData? a := by
+  simp [nodeData?, h]
+
+/-! ### single gate steps -/
+
+theorem testNewMinimum_of_some {same : δ → δ → Bool} {s : Ktn δ} {d : δ} {i : Nat}
+    (h : isNewMinimum same s d = some i) : testNewMinimum same s d = s := by
+  simp [testNewMinimum, h]
+
+theorem testNewMinimum_of_none {same : δ → δ → Bool} {s : Ktn δ} {d : δ}
+    (h : isNewMinimum same s d = none) : testNewMinimum same s d = s.addMin d := by
+  simp [testNewMinimum, h]
+
+theorem gateInv_addMin {same : δ → δ → Bool} {s : Ktn δ} (hs : GateInv same s) {d : δ}
+    (h : isNewMinimum same s d = none) : GateInv same (s.addMin d) := by
+  have hnone := isNewMinimum_none hs.inv h
+  refine ⟨inv_addMin hs.inv d, ?_, ?_⟩
+  · unfold MinDistinct
+    rw [addMin_eq hs.inv]
+    simp only [List.pairwise_append, List.pairwise_cons, List.mem_singleton]
+    refine ⟨hs.mins, ⟨by simp, List.Pairwise.nil⟩, ?_⟩
+    intro a ha b hb; subst hb; exact hnone a ha
+  · unfold TsDistinct
+    rw [addMin_eq hs.inv]
+    exact hs.tss
+
+theorem mono_addMin (T : δ → Prop) {s : Ktn δ} (hs : Inv s) (d : δ) : Mono T s (s.addMin d) := by
+  rw [addMin_eq hs]
+  exact ⟨⟨[⟨s.nMin, d⟩], rfl⟩, Nat.le_succ _, ⟨[], by simp⟩, fun _ _ x h => ⟨x, h, Or.inl rfl⟩⟩
+
+theorem lookupOrInsert_spec {same : δ → δ → Bool} {s : Ktn δ} (hs : GateInv same s) (d : δ) :
+    GateInv same (lookupOrInsert same s d).1 ∧
+    (lookupOrInsert same s d).2 < (lookupOrInsert same s d).1.nMin ∧
+    (lookupOrInsert same s d).1.edges = s.edges ∧
+    (lookupOrInsert same s d).1.nTs = s.nTs ∧
+    (lookupOrInsert same s d).1.pairlist = s.pairlist ∧
+    (∃ extra, (lookupOrInsert same s d).1.nodes = s.nodes ++ extra) ∧
+    s.nMin ≤ (lookupOrInsert same s d).1.nMin ∧
+    Rep same (lookupOrInsert same s d).1 (lookupOrInsert same s d).2 d := by
+  unfold lookupOrInsert
+  cases h : isNewMinimum same s d with
+  | some i =>
+    obtain ⟨nd, _, _, hsame, hlt, hdata⟩ := isNewMinimum_some hs.inv h
+    exact ⟨hs, hlt, rfl, rfl, rfl, ⟨[], by simp⟩, Nat.le_refl _, ⟨nd.data, hdata, Or.inr hsame⟩⟩
+  | none =>
+    have hm := mono_addMin (fun _ => False) hs.inv d
+    have hnd := nodeData_addMin hs.inv d
+    simp only
+    rw [addMin_eq hs.inv] at *
+    refine ⟨?_, ?_, rfl, rfl, rfl, ⟨[⟨s.nMin, d⟩], rfl⟩, Nat.le_succ _, ⟨d, ?_, Or.inl rfl⟩⟩
+    · have := gateInv_addMin hs h
+      rwa [addMin_eq hs.inv] at this
+    · simp
+    · simpa using hnd.1
+
+theorem isNewTs_true {same : δ → δ → Bool} {s : Ktn δ} {d : δ} (h : isNewTs same s d = true) :
+    ∀ e ∈ s.edges, same d e.data = false := by
+  intro e he
+  simp only [isNewTs, Bool.not_eq_true', List.any_eq_false] at h
+  simpa using h e he
+
+theorem isNewTs_false {same : δ → δ → Bool} {s : Ktn δ} {d : δ} (h : isNewTs same s d = false) :
+    ∃ e ∈ s.edges, same d e.data = true := by
+  simpa [isNewTs] using h
+
+theorem pairwise_replace {same : δ → δ → Bool} (hsym : ∀ x y, same x y = same y x) (d : δ) (u v : Nat) :
+    ∀ (l : List (Edge δ)), l.Pairwise (fun a b => Edge.joins a b.u b.v = false) →
+      l.Pairwise (fun a b => same b.data a.data = false ∧ same a.data b.data = false) →
+      (∀ e ∈ l, same d e.data = false) →
+      (l.map (fun e => if Edge.joins e u v then { e with data := d } else e)).Pairwise
+        (fun a b => same b.data a.data = false ∧ same a.data b.data = false) := by
+  intro l
+  induction l with
+  | nil => intro _ _ _; simp
+  | cons a l ih =>
+    intro hj hd hnew
+    rw [List.pairwise_cons] at hj hd
+    rw [List.map_cons, List.pairwise_cons]
+    refine ⟨?_, ih hj.2 hd.2 (fun e he => hnew e (by simp [he]))⟩
+    intro b' hb'
+    simp only [List.mem_map] at hb'
+    obtain ⟨b, hb, rfl⟩ := hb'
+    have hdb := hnew b (by simp [hb])
+    have hda := hnew a (by simp)
+    by_cases ha : Edge.joins a u v = true
+    · have hbj : Edge.joins b u v = false := by
+        cases hx : Edge.joins b u v
+        · rfl
+        · have := hj.1 b hb
+          rw [joins_trans ha hx] at this; exact absurd this (by simp)
+      simp only [ha, hbj, if_true]
+      exact ⟨by rw [hsym]; exact hdb, hdb⟩
+    · have ha' : Edge.joins a u v = false := by simpa using ha
+      simp only [ha']
+      by_cases hbj : Edge.joins b u v = true
+      · simp only [hbj, if_true]
+        exact ⟨hda, by rw [hsym]; exact hda⟩
+      · have hbj' : Edge.joins b u v = false := by simpa using hbj
+        simp only [hbj']
+        exact hd.1 b hb
+
+theorem tsDistinct_addTs {same : δ → δ → Bool} (hsym : ∀ x y, same x y = same y x) {s : Ktn δ}
+    (hi : Inv s) (ht : TsDistinct same s) {d : δ} (hnew : ∀ e ∈ s.edges, same d e.data = false)
+    (c : Bool) (u v : Nat) : TsDistinct same (s.addTs c d u v) := by
+  unfold TsDistinct addTs
+  split
+  · exact pairwise_replace hsym d u v s.edges hi.2.2.1 ht hnew
+  · simp only [List.pairwise_append, List.pairwise_cons, List.mem_singleton]
+    refine ⟨ht, ⟨by simp, List.Pairwise.nil⟩, ?_⟩
+    intro a ha b hb; subst hb
+    exact ⟨hnew a ha, by rw [hsym]; exact hnew a ha⟩
+
+theorem edgeData_addTs_cases (c : Bool) (s : Ktn δ) (d : δ) (u v a b : Nat) :
+    (s.addTs c d u v).edgeData? a b = s.edgeData? a b ∨
+      ((s.addTs c d u v).edgeData? a b = some d ∧ Edge.joins (⟨a, b, d⟩ : Edge δ) u v = true) := by
+  obtain ⟨h1, h2, _, h4⟩ := edgeData_addTs c s d u v
+  cases hj : Edge.joins (⟨a, b, d⟩ : Edge δ) u v
+  · exact Or.inl (h4 a b hj)
+  · right
+    refine ⟨?_, rfl⟩
+    simp [Edge.joins] at hj
+    rcases hj with ⟨rfl, rfl⟩ | ⟨rfl, rfl⟩
+    · exact h1
+    · exact h2
+
+theorem mono_addTs (c : Bool) (s : Ktn δ) (d : δ) (u v : Nat) :
+    Mono (· = d) s (s.addTs c d u v) := by
+  refine ⟨⟨[], by simp [(edgeData_addTs c s d u v).2.2.1]⟩, ?_, ⟨[], ?_⟩, ?_⟩
+  · unfold addTs; split <;> exact Nat.le_refl _
+  · unfold addTs; split <;> simp
+  · intro a b x hx
+    rcases edgeData_addTs_cases c s d u v a b with h | ⟨h, _⟩
+    · exact ⟨x, by rw [h, hx], Or.inl rfl⟩
+    · exact ⟨d, h, Or.inr rfl⟩
+
+
+theorem mono_of_edges_eq (T : δ → Prop) {s s' : Ktn δ} (hn : ∃ extra, s'.nodes = s.nodes ++ extra)
+    (hm : s.nMin ≤ s'.nMin) (hp : s'.pairlist = s.pairlist) (he : s'.edges = s.edges) : Mono T s s' :=
+  ⟨hn, hm, ⟨[], by simp [hp]⟩, fun a b x hx => ⟨x, by rw [edgeData_congr he, hx], Or.inl rfl⟩⟩
+
+theorem testNewTs_repeat {same : δ → δ → Bool} {c : Bool} {s : Ktn δ} {r : Rec δ}
+    (h : isNewTs same s r.ts = false) : testNewTs same c s r = s := by
+  simp [testNewTs, h]
+
+/-- everything one needs to know about merging a record whose transition state is new -/
+theorem testNewTs_new_spec {same : δ → δ → Bool} (hsym : ∀ x y, same x y = same y x) {s : Ktn δ}
+    (hs : GateInv same s) (r : Rec δ) (h : isNewTs same s r.ts = true) :
+    ∃ ip im,
+      GateInv same (testNewTs same true s r) ∧
+      Mono (· = r.ts) s (testNewTs same true s r) ∧
+      Rep same (testNewTs same true s r) ip r.plus ∧
+      Rep same (testNewTs same true s r) im r.minus ∧
+      (testNewTs same true s r).edgeData? ip im = some r.ts ∧
+      (∀ a b, Edge.joins (⟨a, b, r.ts⟩ : Edge δ) ip im = false →
+        (testNewTs same true s r).edgeData? a b = s.edgeData? a b) ∧
+      ip < (testNewTs same true s r).nMin ∧ im < (testNewTs same true s r).nMin ∧
+      (testNewTs same true s r).nMin ≤ s.nMin + 2 ∧
+      (isNewMinimum same s r.plus = none → ip = s.nMin) ∧
+      (∀ i, isNewMinimum same s r.plus = some i → ip = i) := by
+  obtain ⟨A1, A2, A3, _, A5, A6, A7, A8⟩ := lookupOrInsert_spec hs r.plus
+  obtain ⟨B1, B2, B3, _, B5, B6, B7, B8⟩ := lookupOrInsert_spec A1 r.minus
+  have heq : testNewTs same true s r =
+      (lookupOrInsert same (lookupOrInsert same s r.plus).1 r.minus).1.addTs true r.ts
+        (lookupOrInsert same s r.plus).2 (lookupOrInsert same (lookupOrInsert same s r.plus).1 r.minus).2 := by
+    simp [testNewTs, h]
+  rw [heq]
+  generalize hA : lookupOrInsert same s r.plus = A at *
+  generalize hB : lookupOrInsert same A.1 r.minus = B at *
+  have hAlt : A.2 < B.1.nMin := Nat.lt_of_lt_of_le A2 B7
+  obtain ⟨_, _, hnodes, _⟩ := edgeData_addTs true B.1 r.ts A.2 B.2
+  have hed := edgeData_addTs true B.1 r.ts A.2 B.2
+  have hnew : ∀ e ∈ B.1.edges, same r.ts e.data = false := by
+    rw [B3, A3]; exact isNewTs_true h
+  have hpre : ∃ extra, (B.1.addTs true r.ts A.2 B.2).nodes = B.1.nodes ++ extra := ⟨[], by simp [hnodes]⟩
+  have hnm : (B.1.addTs true r.ts A.2 B.2).nMin = B.1.nMin := by unfold addTs; split <;> rfl
+  refine ⟨A.2, B.2, ⟨inv_addTs B1.inv r.ts A.2 B.2 hAlt B2, ?_, ?_⟩, ?_, ?_, ?_, hed.1, ?_, ?_, ?_, ?_, ?_, ?_⟩
+  · unfold MinDistinct; rw [hnodes]; exact B1.mins
+  · exact tsDistinct_addTs hsym B1.inv B1.tss hnew true A.2 B.2
+  · have m1 : Mono (· = r.ts) s A.1 := mono_of_edges_eq _ A6 A7 A5 A3
+    have m2 : Mono (· = r.ts) A.1 B.1 := mono_of_edges_eq _ B6 B7 B5 B3
+    exact (m1.trans m2).trans (mono_addTs true B.1 r.ts A.2 B.2)
+  · exact (A8.mono B6).mono hpre
+  · exact B8.mono hpre
+  · intro a b hab
+    rw [hed.2.2.2 a b hab, edgeData_congr B3, edgeData_congr A3]
+  · rw [hnm]; exact hAlt
+  · rw [hnm]; exact B2
+  · rw [hnm]
+    have h1 : A.1.nMin ≤ s.nMin + 1 := by
+      rw [← hA]; unfold lookupOrInsert
+      cases isNewMinimum same s r.plus
+      · simp only [addMin]; split <;> simp
+      · simp
+    have h2 : B.1.nMin ≤ A.1.nMin + 1 := by
+      rw [← hB]; unfold lookupOrInsert
+      cases isNewMinimum same A.1 r.minus
+      · simp only [addMin]; split <;> simp
+      · simp
+    omega
+  · intro hn
+    rw [← hA]; unfold lookupOrInsert; rw [hn]
+    simp [addMin_eq hs.inv]
+  · intro i hi
+    rw [← hA]; unfold lookupOrInsert; rw [hi]
+
+theorem testNewTs_spec {same : δ → δ → Bool} (hsym : ∀ x y, same x y = same y x) {s : Ktn δ}
+    (hs : GateInv same s) (r : Rec δ) :
+    GateInv same (testNewTs same true s r) ∧ Mono (· = r.ts) s (testNewTs same true s r) := by
+  cases h : isNewTs same s r.ts
+  · rw [testNewTs_repeat h]; exact ⟨hs, Mono.refl _ _⟩
+  · obtain ⟨_, _, h1, h2, _⟩ := testNewTs_new_spec hsym hs r h
+    exact ⟨h1, h2⟩
+
+theorem testNewMinimum_spec {same : δ → δ → Bool} {s : Ktn δ} (hs : GateInv same s) (d : δ) :
+    GateInv same (testNewMinimum same s d) ∧ Mono (fun _ => False) s (testNewMinimum same s d) := by
+  cases h : isNewMinimum same s d with
+  | some i => rw [testNewMinimum_of_some h]; exact ⟨hs, Mono.refl _ _⟩
+  | none => rw [testNewMinimum_of_none h]; exact ⟨gateInv_addMin hs h, mono_addMin _ hs.inv d⟩
+
+/-- after `test_new_minimum` the candidate is represented -/
+theorem testNewMinimum_rep {same : δ → δ → Bool} {s : Ktn δ} (hs : GateInv same s) (d : δ) :
+    ∃ i, Rep same (testNewMinimum same s d) i d ∧ i < (testNewMinimum same s d).nMin := by
+  cases h : isNewMinimum same s d with
+  | some i =>
+    rw [testNewMinimum_of_some h]
+    obtain ⟨nd, _, _, hsame, hlt, hdata⟩ := isNewMinimum_some hs.inv h
+    exact ⟨i, ⟨nd.data, hdata, Or.inr hsame⟩, hlt⟩
+  | none =>
+    rw [testNewMinimum_of_none h]
+    refine ⟨s.nMin, ⟨d, (nodeData_addMin hs.inv d).1, Or.inl rfl⟩, ?_⟩
+    rw [addMin_eq hs.inv]; simp
+
+/-! ### folds -/
+
+theorem mergeRecs_spec {same : δ → δ → Bool} (hsym : ∀ x y, same x y = same y x) (recs : List (Rec δ)) :
+    ∀ {s : Ktn δ}, GateInv same s →
+      GateInv same (mergeRecs same true s recs) ∧
+      Mono (fun y => ∃ r ∈ recs, y = r.ts) s (mergeRecs same true s recs) := by
+  induction recs with
+  | nil => intro s hs; exact ⟨hs, Mono.refl _ _⟩
+  | cons r recs ih =>
+    intro s hs
+    obtain ⟨h1, h2⟩ := testNewTs_spec hsym hs r
+    obtain ⟨h3, h4⟩ := ih h1
+    refine ⟨h3, ?_⟩
+    have h2' : Mono (fun y => ∃ r' ∈ r :: recs, y = r'.ts) s (testNewTs same true s r) :=
+      h2.weaken (fun y hy => ⟨r, by simp, hy⟩)
+    have h4' : Mono (fun y => ∃ r' ∈ r :: recs, y = r'.ts) (testNewTs same true s r)
+        (mergeRecs same true (testNewTs same true s r) recs) :=
+      h4.weaken (fun y ⟨r', hr', hy⟩ => ⟨r', by simp [hr'], hy⟩)
+    exact h2'.trans h4'
+
+theorem foldMin_spec {same : δ → δ → Bool} (mins : List δ) :
+    ∀ {s : Ktn δ}, GateInv same s →
+      GateInv same (mins.foldl (testNewMinimum same) s) ∧
+      Mono (fun _ => False) s (mins.foldl (testNewMinimum same) s) := by
+  induction mins with
+  | nil => intro s hs; exact ⟨hs, Mono.refl _ _⟩
+  | cons d mins ih =>
+    intro s hs
+    obtain ⟨h1, h2⟩ := testNewMinimum_spec hs d
+    obtain ⟨h3, h4⟩ := ih h1
+    exact ⟨h3, h2.trans h4⟩
+
+/-- every minimum offered in a fold of `test_new_minimum` is represented at the end -/
+theorem foldMin_rep {same : δ → δ → Bool} (mins : List δ) :
+    ∀ {s : Ktn δ}, GateInv same s → ∀ d ∈ mins,
+      ∃ i, Rep same (mins.foldl (testNewMinimum same) s) i d := by
+  induction mins with
+  | nil => intro s _ d hd; simp at hd
+  | cons d0 mins ih =>
+    intro s hs d hd
+    obtain ⟨h1, _⟩ := testNewMinimum_spec hs d0
+    rcases List.mem_cons.1 hd with rfl | hd'
+    · obtain ⟨i, hi, _⟩ := testNewMinimum_rep hs d
+      exact ⟨i, hi.mono (foldMin_spec mins h1).2.nodes⟩
+    · exact ih h1 d hd'
+
+theorem minimaLoop_fold_fst (same : δ → δ → Bool) (mins : List δ) (acc : Ktn δ × List (Option Nat)) :
+    (mins.foldl (fun (acc : Ktn δ × List (Option Nat)) d =>
+      let s' := testNewMinimum same acc.1 d
+      (s', acc.2 ++ [isNewMinimum same s' d])) acc).1 = mins.foldl (testNewMinimum same) acc.1 := by
+  induction mins generalizing acc with
+  | nil => rfl
+  | cons d mins ih => simp only [List.foldl_cons]; exact ih _
+
+theorem minimaLoop_fst (same : δ → δ → Bool) (mins : List δ) (s : Ktn δ) :
+    (minimaLoop same s mins).1 = mins.foldl (testNewMinimum same) s :=
+  minimaLoop_fold_fst same mins (s, [])
+
+theorem mergeHistory_prefix (imap : List (Option Nat)) (other : List (Nat × Nat)) :
+    ∀ own, ∃ extra, mergeHistory own imap other = own ++ extra := by
+  induction other with
+  | nil => intro own; exact ⟨[], by simp [mergeHistory]⟩
+  | cons p other ih =>
+    intro own
+    simp only [mergeHistory, List.foldl_cons]
+    split
+    · rename_i a b _ _
+      obtain ⟨extra, he⟩ := ih (own ++ [sortPair (a, b)])
+      exact ⟨sortPair (a, b) :: extra, by simp only [mergeHistory] at he; rw [he]; simp⟩
+    · exact ih own
+
+theorem mono_setHist (T : δ → Prop) (s : Ktn δ) {pl : List (Nat × Nat)}
+    (h : ∃ extra, pl = s.pairlist ++ extra) : Mono T s { s with pairlist := pl } :=
+  ⟨⟨[], by simp⟩, Nat.le_refl _, h, fun _ _ x hx => ⟨x, hx, Or.inl rfl⟩⟩
+
+theorem gateInv_setHist {same : δ → δ → Bool} {s : Ktn δ} (hs : GateInv same s)
+    (pl : List (Nat × Nat)) : GateInv same { s with pairlist := pl } :=
+  ⟨hs.inv, hs.mins, hs.tss⟩
+
+theorem addNetworkRecs_spec {same : δ → δ → Bool} (hsym : ∀ x y, same x y = same y x) {s : Ktn δ}
+    (hs : GateInv same s) (mins : List δ) (recs : List (Rec δ)) (hist : List (Nat × Nat)) :
+    GateInv same (addNetworkRecs same true s mins recs hist) ∧
+    Mono (fun y => ∃ r ∈ recs, y = r.ts) s (addNetworkRecs same true s mins recs hist) ∧
+    ∀ d ∈ mins, ∃ i, Rep same (addNetworkRecs same true s mins recs hist) i d := by
+  unfold addNetworkRecs
+  simp only [minimaLoop_fst]
+  obtain ⟨h1, h2⟩ := foldMin_spec (same := same) mins hs
+  have h34 := mergeRecs_spec hsym recs h1
+  unfold mergeRecs at h34
+  obtain ⟨h3, h4⟩ := h34
+  refine ⟨gateInv_setHist h3 _, ?_, ?_⟩
+  · exact ((h2.weaken (fun _ h => h.elim)).trans h4).trans (mono_setHist _ _ (mergeHistory_prefix _ _ _))
+  · intro d hd
+    obtain ⟨i, hi⟩ := foldMin_rep mins hs d hd
+    exact ⟨i, (hi.mono h4.nodes).mono ⟨[], by simp⟩⟩
+
+
+/-! ### streams of offers -/
+
+/-- the transition states an offer presents to the gate -/
+def Offer.tss : Offer δ → List δ
+  | .ts r => [r.ts]
+  | .merge _ recs _ => recs.map (·.ts)
+  | _ => []
+
+theorem offer_gateInv {same : δ → δ → Bool} (hsym : ∀ x y, same x y = same y x) {s : Ktn δ}
+    (hs : GateInv same s) (o : Offer δ) : GateInv same (offer same true s o) := by
+  cases o with
+  | minimum d => exact (testNewMinimum_spec hs d).1
+  | ts r => exact (testNewTs_spec hsym hs r).1
+  | failed => exact hs
+  | merge mins recs hist => exact (addNetworkRecs_spec hsym hs mins recs hist).1
+  | reset => exact gateInv_reset same s
+
+theorem offer_mono {same : δ → δ → Bool} (hsym : ∀ x y, same x y = same y x) {s : Ktn δ}
+    (hs : GateInv same s) (o : Offer δ) (hnr : o.isReset = false) :
+    Mono (fun y => y ∈ o.tss) s (offer same true s o) := by
+  cases o with
+  | minimum d => exact (testNewMinimum_spec hs d).2.weaken (fun _ h => h.elim)
+  | ts r => exact (testNewTs_spec hsym hs r).2.weaken (fun y hy => by simp [Offer.tss, hy])
+  | failed => exact Mono.refl _ _
+  | merge mins recs hist =>
+    exact (addNetworkRecs_spec hsym hs mins recs hist).2.1.weaken
+      (fun y ⟨r, hr, hy⟩ => by simp only [Offer.tss, List.mem_map]; exact ⟨r, hr, hy.symm⟩)
+  | reset => simp [Offer.isReset] at hnr
+
+theorem offer_rep {same : δ → δ → Bool} (hsym : ∀ x y, same x y = same y x) {s : Ktn δ}
+    (hs : GateInv same s) (o : Offer δ) :
+    ∀ d ∈ o.minima, ∃ i, Rep same (offer same true s o) i d := by
+  cases o with
+  | minimum d =>
+    intro d' hd'
+    simp only [Offer.minima, List.mem_singleton] at hd'
+    subst hd'
+    obtain ⟨i, hi, _⟩ := testNewMinimum_rep hs d'
+    exact ⟨i, hi⟩
+  | merge mins recs hist => exact (addNetworkRecs_spec hsym hs mins recs hist).2.2
+  | ts r => intro d hd; simp [Offer.minima] at hd
+  | failed => intro d hd; simp [Offer.minima] at hd
+  | reset => intro d hd; simp [Offer.minima] at hd
+
+theorem run_gateInv {same : δ → δ → Bool} (hsym : ∀ x y, same x y = same y x) (offers : List (Offer δ)) :
+    ∀ {s : Ktn δ}, GateInv same s → GateInv same (run same true s offers) := by
+  induction offers with
+  | nil => intro s hs; exact hs
+  | cons o offers ih => intro s hs; exact ih (offer_gateInv hsym hs o)
+
+theorem run_mono {same : δ → δ → Bool} (hsym : ∀ x y, same x y = same y x) (offers : List (Offer δ)) :
+    ∀ {s : Ktn δ}, GateInv same s → (∀ o ∈ offers, o.isReset = false) →
+      Mono (fun y => ∃ o ∈ offers, y ∈ o.tss) s (run same true s offers) := by
+  induction offers with
+  | nil => intro s _ _; exact Mono.refl _ _
+  | cons o offers ih =>
+    intro s hs hnr
+    have h1 := (offer_mono hsym hs o (hnr o (by simp))).weaken
+      (T' := fun y => ∃ o' ∈ o :: offers, y ∈ o'.tss) (fun y hy => ⟨o, by simp, hy⟩)
+    have h2 := (ih (offer_gateInv hsym hs o) (fun o' ho' => hnr o' (by simp [ho']))).weaken
+      (T' := fun y => ∃ o' ∈ o :: offers, y ∈ o'.tss) (fun y ⟨o', ho', hy⟩ => ⟨o', by simp [ho'], hy⟩)
+    exact h1.trans h2
+
+theorem run_rep {same : δ → δ → Bool} (hsym : ∀ x y, same x y = same y x) (offers : List (Offer δ)) :
+    ∀ {s : Ktn δ}, GateInv same s → (∀ o ∈ offers, o.isReset = false) →
+      ∀ o ∈ offers, ∀ d ∈ o.minima, ∃ i, Rep same (run same true s offers) i d := by
+  induction offers with
+  | nil => intro s _ _ o ho; simp at ho
+  | cons o0 offers ih =>
+    intro s hs hnr o ho d hd
+    have hs1 := offer_gateInv hsym hs o0
+    have hnr' : ∀ o' ∈ offers, o'.isReset = false := fun o' ho' => hnr o' (by simp [ho'])
+    rcases List.mem_cons.1 ho with rfl | ho'
+    · obtain ⟨i, hi⟩ := offer_rep hsym hs o d hd
+      exact ⟨i, hi.mono (run_mono hsym offers hs1 hnr').nodes⟩
+    · exact ih hs1 hnr' o ho' d hd
+
+/-! ### rounds -/
+
+theorem successes_append (a b : List (Outcome δ)) : successes (a ++ b) = successes a ++ successes b := by
+  simp [successes, List.filterMap_append]
+
+theorem mergeRecs_append (same : δ → δ → Bool) (c : Bool) (s : Ktn δ) (a b : List (Rec δ)) :
+    mergeRecs same c s (a ++ b) = mergeRecs same c (mergeRecs same c s a) b := by
+  simp [mergeRecs, List.foldl_append]
+
+theorem mergeRound_eq_flat (same : δ → δ → Bool) (c : Bool) (outs : List (List (Outcome δ))) :
+    ∀ s : Ktn δ, mergeRound same c s outs = mergeRecs same c s (successes outs.flatten) := by
+  induction outs with
+  | nil => intro s; rfl
+  | cons os outs ih =>
+    intro s
+    have : mergeRound same c s (os :: outs) = mergeRound same c (mergeRecs same c s (successes os)) outs := rfl
+    rw [this, ih, List.flatten_cons, successes_append, mergeRecs_append]
+
+theorem mergeRecs_eq_foldOutcome (same : δ → δ → Bool) (c : Bool) (outs : List (Outcome δ)) :
+    ∀ s : Ktn δ, mergeRecs same c s (successes outs) = outs.foldl (mergeOutcome same c) s := by
+  induction outs with
+  | nil => intro s; rfl
+  | cons o outs ih =>
+    intro s
+    cases o with
+    | none => simpa [successes, mergeOutcome] using ih s
+    | some r => simpa [successes, mergeOutcome, mergeRecs] using ih (testNewTs same c s r)
+
+/-- which tasks were performed -/
+def maskedOutcomes (mask : List Bool) (tasks : List (Task δ)) : List (List (Outcome δ)) :=
+  List.zipWith (fun m t => if m then t.2 else []) mask tasks
+
+theorem serialFold_eq (allowed : Ktn δ → Nat × Nat → Bool) (same : δ → δ → Bool) (c : Bool)
+    (tasks : List (Task δ)) : ∀ s : Ktn δ, ∃ mask : List Bool, mask.length = tasks.length ∧
+      tasks.foldl (fun s t => if allowed s t.1 then mergeRecs same c s (successes t.2) else s) s =
+        mergeRound same c s (maskedOutcomes mask tasks) := by
+  induction tasks with
+  | nil => intro s; exact ⟨[], rfl, rfl⟩
+  | cons t tasks ih =>
+    intro s
+    obtain ⟨mask, hl, he⟩ := ih (if allowed s t.1 then mergeRecs same c s (successes t.2) else s)
+    refine ⟨allowed s t.1 :: mask, by simp [hl], ?_⟩
+    simp only [List.foldl_cons, he, maskedOutcomes, List.zipWith_cons_cons, mergeRound]
+    cases allowed s t.1 <;> simp [successes, mergeRecs]
+
+theorem parallelFold_eq (allowed : Ktn δ → Nat × Nat → Bool) (same : δ → δ → Bool) (c : Bool)
+    (s0 : Ktn δ) (tasks : List (Task δ)) : ∀ s : Ktn δ,
+      (tasks.map (fun t => if allowed s0 t.1 then successes t.2 else [])).foldl (mergeRecs same c) s =
+        mergeRound same c s (maskedOutcomes (tasks.map (fun t => allowed s0 t.1)) tasks) := by
+  induction tasks with
+  | nil => intro s; rfl
+  | cons t tasks ih =>
+    intro s
+    simp only [List.map_cons, List.foldl_cons, maskedOutcomes, List.zipWith_cons_cons, mergeRound]
+    rw [ih]
+    cases allowed s0 t.1 <;> simp [successes, mergeRecs, mergeRound, maskedOutcomes]
+
+theorem mergeRound_spec {same : δ → δ → Bool} (hsym : ∀ x y, same x y = same y x)
+    (outs : List (List (Outcome δ))) {s : Ktn δ} (hs : GateInv same s) :
+    GateInv same (mergeRound same true s outs) ∧
+    Mono (fun y => ∃ r, some r ∈ outs.flatten ∧ y = r.ts) s (mergeRound same true s outs) := by
+  rw [mergeRound_eq_flat]
+  obtain ⟨h1, h2⟩ := mergeRecs_spec hsym (successes outs.flatten) hs
+  refine ⟨h1, h2.weaken ?_⟩
+  rintro y ⟨r, hr, hy⟩
+  refine ⟨r, ?_, hy⟩
+  simpa [successes] using hr
+
+theorem mem_maskedOutcomes {mask : List Bool} {tasks : List (Task δ)} {o : Outcome δ}
+    (h : o ∈ (maskedOutcomes mask tasks).flatten) : ∃ t ∈ tasks, o ∈ t.2 := by
+  induction tasks generalizing mask with
+  | nil => cases mask <;> simp [maskedOutcomes] at h
+  | cons t tasks ih =>
+    cases mask with
+    | nil => simp [maskedOutcomes] at h
+    | cons m mask =>
+      simp only [maskedOutcomes, List.zipWith_cons_cons, List.flatten_cons, List.mem_append] at h
+      rcases h with h | h
+      · cases m
+        · simp at h
+        · exact ⟨t, by simp, by simpa using h⟩
+      · obtain ⟨t', ht', ho⟩ := ih (mask := mask) h
+        exact ⟨t', by simp [ht'], ho⟩
+
+/-! ### reconvergence -/
+
+theorem tsLoop_skip (same : δ → δ → Bool) (c : Bool) (outs : List (Outcome δ)) :
+    ∀ s : Ktn δ, tsLoop true same c s outs = some (mergeRecs same c s (successes outs)) := by
+  induction outs with
+  | nil => intro s; rfl
+  | cons o outs ih =>
+    intro s
+    cases o with
+    | none => simpa [tsLoop, successes] using ih s
+    | some r => simpa [tsLoop, successes, mergeRecs] using ih (testNewTs same c s r)
+
+theorem tsLoop_abort (same : δ → δ → Bool) (c : Bool) (outs : List (Outcome δ)) (h : none ∈ outs) :
+    ∀ s : Ktn δ, tsLoop false same c s outs = none := by
+  induction outs with
+  | nil => simp at h
+  | cons o outs ih =>
+    intro s
+    cases o with
+    | none => simp [tsLoop]
+    | some r =>
+      have : none ∈ outs := by simpa using h
+      simpa [tsLoop] using ih this _
+
 end TopSearch.Merge
